@@ -571,6 +571,8 @@ class Explorer(object):
                 fd_ = self.port.func(self.modname, '{}.{}'.format(self.cls, name_), required=False)
                 if fd_ is not None:
                     return self.call_fd(fd_, [obj_] + args if fd_.args.args and fd_.args.args[0].arg in ('self', 'this') else args, kwargs)
+            if isinstance(recv, dict) and m in recv and isinstance(recv[m], tuple) and recv[m] and recv[m][0] in ('lambda', 'closure'):
+                return self.apply(recv[m], args, e)      # a function stored in an object literal
             if recv == ('global', 'Array') and m == 'from' and len(args) == 1 and isinstance(args[0], (list, tuple, set)):
                 return list(args[0])
             if recv == ('global', 'Math') and m in ('max', 'min') and args and all(isinstance(a, (int, float)) and not isinstance(a, bool) for a in args):
@@ -809,6 +811,8 @@ class Explorer(object):
                 return recv.get(args[0], args[1] if len(args) == 2 else None)
             if m == 'setdefault' and len(args) == 2:
                 return recv.setdefault(args[0], args[1])
+            if m == 'hasOwnProperty' and len(args) == 1:
+                return args[0] in recv
             if m == 'set' and len(args) == 2:
                 recv[args[0]] = args[1]
                 return recv
